@@ -19,6 +19,9 @@ class LifeGen(storegen.HistGen):
                 self.ops.append(["create", b, storegen.mk_meta(self.rng, b)])
                 self.alive.add(b)
                 self.live[b] = []
+            elif r < 0.60:
+                self.ops.append(["create_bad", b, self.rng.choice(["created", "null-field"])])
+                self.ops.append(["lookup", b])
             elif r < 0.65:
                 self.ops.append(["lookup", b])
             elif r < 0.75:
@@ -159,6 +162,9 @@ class C05(Prop):
                 nev[b] = 0
                 if d[b]["events"]:
                     return f"{where}: new bucket is not empty: {d[b]['events']}"
+            elif k == "create_bad":
+                if o == ["accepted"]:
+                    return f"{where}: a creation with invalid metadata was accepted"
             elif k == "update":
                 if missing:
                     if o != ["err", "ValueError"]:
